@@ -22,7 +22,7 @@ oracle: no Lean, run in a forked child in parallel, every call into mako guarded
         site (${e|n,f}, ${e|f}, default_filters, <%page expression_filter>, <%text filter>, filter= on <%def>, nested
         <%def>, <%block>, <%call>, <%self:def>) x {plain, buffered, cached, cached+buffered} rendered twice with an
         in-memory CacheImpl; the escaping guarantee for every CONFIGURATION default_filters {None, [], ['str'], ['h'],
-        custom} x <%page expression_filter> {absent, h, x, 'n,h'} x the expression's own filters whenever h/x is in the
+        ['trim'], ['str','trim']} x <%page expression_filter> {absent, h, x, 'n,h'} x the expression's own filters whenever h/x is in the
         effective chain of the documented rule (top level, inside a def, inside a block); the handler through every
         bytes-producing ENTRY (Template.render, get_def(..).render, DefTemplate.get_def, lookup templates incl. include /
         inherit / file-based, render_context into a FastEncodingBuffer) x 5 output encodings; and the filters /
